@@ -729,6 +729,9 @@ fn op_rcu(ctx: Ctx, c: u8, spec: RcuSpec, h: u8) {
         let mut seen: Vec<(u32, usize, u64)> = Vec::new();
         let mut produced: Vec<u32> = Vec::new();
         let mut last_fresh = true;
+        // set when the unwinding starts inside the closure (then this attempt never reached its
+        // compare-and-swap, and no earlier attempt installed anything)
+        let mut in_closure_panic = false;
         let res = guarded("rcu", || {
             cv.rcu(|cur: &T| {
                 attempt += 1;
@@ -752,10 +755,12 @@ fn op_rcu(ctx: Ctx, c: u8, spec: RcuSpec, h: u8) {
                     let res = catch_unwind(AssertUnwindSafe(|| cv.store(x)));
                     rec_end(ctx, rr, c, CallKind::Store, xa, 0, (0, 0), true);
                     if let Err(e) = res {
+                        in_closure_panic = true;
                         std::panic::resume_unwind(e);
                     }
                 }
                 if spec.panic_at != 0 && attempt == spec.panic_at {
+                    in_closure_panic = true;
                     std::panic::resume_unwind(Box::new(UserPanic("rcu closure")));
                 }
                 let _ = in_val;
@@ -829,8 +834,26 @@ fn op_rcu(ctx: Ctx, c: u8, spec: RcuSpec, h: u8) {
                 w(|w| w.discarded.extend(produced.iter().copied()));
                 w(|w| w.handles[hslot(ctx, h)] = Some(hv));
             }
-            None => {
+            None if in_closure_panic => {
                 // closure panicked: nothing may have been installed by this call
+                w(|w| w.discarded.extend(produced.iter().copied()));
+            }
+            None => {
+                // The unwinding started elsewhere: a destructor that ran inside the last attempt's
+                // compare-and-swap, i.e. possibly AFTER its exchange (the writer's debt walk comes
+                // after it). The last result may therefore be installed: the installation is an
+                // optional write in the history, and only the earlier results count as discarded.
+                if !seen.is_empty() {
+                    let inv = seen.last().map(|s| s.2).unwrap_or(r0.inv);
+                    let r = Rec {
+                        inv,
+                        inv_clock: r0.inv_clock,
+                    };
+                    rec_end(ctx, r, c, CallKind::Rcu, last_out, 0, (0, 0), false);
+                }
+                if last_fresh {
+                    produced.pop();
+                }
                 w(|w| w.discarded.extend(produced.iter().copied()));
             }
         }
